@@ -26,6 +26,10 @@ type realStep struct {
 // realCase is a replayable real-time session script.
 type realCase struct {
 	Steps []realStep `json:"steps"`
+	// SlowUs > 0: the consumer pauses that long after every SlowEvery-th line, so that the 4-slot
+	// output channel fills up and writers (search, interrupt goroutine, handler) queue behind it.
+	SlowUs    int `json:"slow_consumer_us,omitempty"`
+	SlowEvery int `json:"slow_consumer_every,omitempty"`
 }
 
 type live struct {
@@ -39,7 +43,7 @@ type live struct {
 	read chan struct{} // closed when the consumer has seen the end of the output
 }
 
-func startLive() *live {
+func startLive(slowUs, slowEvery int) *live {
 	pr, pw := io.Pipe()
 	or, ow := io.Pipe()
 	l := &live{in: pw, done: make(chan struct{}), read: make(chan struct{}), last: time.Now()}
@@ -49,8 +53,12 @@ func startLive() *live {
 	go func() {
 		sc := bufio.NewScanner(or)
 		sc.Buffer(make([]byte, 1<<16), 1<<20)
+		n := 0
 		for sc.Scan() {
 			line := sc.Text()
+			if n++; slowUs > 0 && n%max(slowEvery, 1) == 0 {
+				time.Sleep(time.Duration(slowUs) * time.Microsecond)
+			}
 			l.tr.add(false, line)
 			l.mu.Lock()
 			if strings.HasPrefix(line, "bestmove") {
@@ -103,6 +111,9 @@ func randDelay(rng *rand.Rand) int {
 // randomReal generates a conforming real-time script.
 func randomReal(rng *rand.Rand) *realCase {
 	c := &realCase{}
+	if rng.IntN(3) == 0 {
+		c.SlowUs, c.SlowEvery = []int{50, 200, 1000, 3000}[rng.IntN(4)], 1+rng.IntN(4)
+	}
 	add := func(d int, cmd, await string) { c.Steps = append(c.Steps, realStep{d, cmd, await}) }
 	ponder := rng.IntN(3) == 0
 	add(0, "uci", "")
@@ -195,7 +206,10 @@ func randomReal(rng *rand.Rand) *realCase {
 
 func realSession(r *ev.Run, lc *ev.Local, wk int, c *realCase) {
 	r.Current(wk, c)
-	l := startLive()
+	l := startLive(c.SlowUs, c.SlowEvery)
+	if c.SlowUs > 0 {
+		lc.C["real_sessions_with_slow_consumer"]++
+	}
 	gos := 0
 	closed := false
 	stopAt := time.Time{}
